@@ -601,3 +601,17 @@ V('st1-verb-star', ['C08'], S, "        if start_arg < self.max_pos and latex[st
 V('ls1-join-form-broken', ['C01', 'C13'], U, "    txt = ''\n    pos = []\n    for t in toks:\n        txt += t.txt\n        if t.pos_fix:\n            pos += [t.pos] * len(t.txt)\n        else:\n            pos += list(range(t.pos, t.pos + len(t.txt)))\n    return txt, pos",
   "    parts = []\n    pos = []\n    for t in toks:\n        parts.append(t.txt)\n        n = len(t.txt)\n        pos.extend([t.pos] * n if t.pos_fix else range(t.pos, t.pos + n + 1))\n    return ''.join(parts), pos", 'LS1')
 V('mt2-section-flag', ['C11'], MP, "                out.append(defs.SpaceToken(out[-1].pos, ' ', pos_fix=True))\n                first_section = False", "                out.append(defs.SpaceToken(out[-1].pos, ' ', pos_fix=True))\n                first_section = True", 'MT2')
+
+# ---- rules added after seed round 5 (sa/rules/r5.py)
+V('ex1c-dedup', ['C03', 'C18'], P, "        for extr in self.extracted:\n            if not extr:\n                continue\n",
+  "        seen_pos = set()\n        for extr in self.extracted:\n            if not extr or extr[0].pos in seen_pos:\n                continue\n            seen_pos.add(extr[0].pos)\n", 'EX1c')
+V('um2-env-skip', ['C05'], P, "            if not (math or name in self.unknowns):\n                self.unknowns.append(name)\n            return out\n        env = self.the_environments[name]",
+  "            if not (math or name in self.unknowns):\n                self.unknowns.append(name)\n            buf.skip_space()\n            return out\n        env = self.the_environments[name]", 'UM2')
+V('sbl2-direct', ['C12'], 'yalafi/packages/babel.py', "def h_begin_otherlang(parser, buf, mac, args, delim, pos):\n    lang = translate_lang(parser.get_text_expanded(args[0]).strip())",
+  "def h_begin_otherlang(parser, buf, mac, args, delim, pos):\n    lang = translate_lang(parser.get_text_direct(args[0]).strip())", 'SBL2')
+V('ab3r-shortcut', ['C13'], U, "    return o_txt + i_txt[last:], o_pos + i_pos[last:]", "    if not o_txt:\n        return i_txt, i_pos\n    return o_txt + i_txt[last:], o_pos + i_pos[last:]", 'AB3r')
+V('tj6-allow-nan', ['C15'], GJ, "    out.write(json.dumps(message))", "    out.write(json.dumps(message, allow_nan=False))", 'TJ6')
+V('tx2-rstrip', ['C16'], PR, "    if not tex.endswith('\\n'):\n        tex += '\\n'\n", "    tex = tex.rstrip('\\n') + '\\n'\n", 'TX2')
+V('th9-empty-piece', ['C16'], GH, "    def f(m):\n        return pre + m.group(1) + post + m.group(2)", "    def f(m):\n        if not m.group(1):\n            return m.group(2)\n        return pre + m.group(1) + post + m.group(2)", 'TH9')
+V('sh3b-no-nosp', ['C18'], SH, "                            dcls=cmdline.documentclass, pack=cmdline.packages,\n                            nosp=cmdline.no_specials)\n\ndef skip_file", "                            dcls=cmdline.documentclass, pack=cmdline.packages)\n\ndef skip_file", 'SH3b')
+V('em7-inline-only', ['C03', 'C08'], MP, "            if not tok or type(tok) is defs.ParagraphToken:\n                buf.next()\n                out = (utils.latex_error('missing end of maths'", "            if not tok or (type(tok) is defs.ParagraphToken\n                                    and env_stop is None):\n                buf.next()\n                out = (utils.latex_error('missing end of maths'", 'EM7')
